@@ -1,4 +1,87 @@
-import LabreaModel.Eval
+/-
+  C18 (core part) — every operation of every expression is issued as a request; a substituting handler is
+  honoured wherever the node is used.  (The class-creation hooks are in C18.lean / Hook.lean.)
+-/
+import LabreaModel.EvalLemmas
+import LabreaModel.MonadLemmas
 namespace Labrea
-theorem c18core_placeholder : True := trivial
+
+/-- **every_operation_is_a_request.** Every `evaluate`/`validate`/`keys`/`explain` of every node, at any
+    depth, begins by issuing the corresponding request (the `req` event a pass-through handler records). -/
+theorem every_operation_is_a_request (env : Env) (n : Nat) (op : Op) (e : Expr) (o : V) (s : St) (r : Except Err V) (s' : St)
+    (h : ev env (n + 1) op e o s = some (r, s')) :
+    ∃ rest, s'.events = rest ++ (Event.req op.name e.id :: s.events) := by
+  have hrel : CacheRel (fun a b : St => ∃ l, b.events = l ++ a.events) :=
+    { refl := fun _ => ⟨[], rfl⟩
+      trans := fun ⟨l1, h1⟩ ⟨l2, h2⟩ => ⟨l2 ++ l1, by rw [h2, h1, List.append_assoc]⟩
+      emit := fun _ ev => ⟨[ev], rfl⟩
+      setCache := fun s c es => ⟨[], by unfold St.setCacheEntries; split <;> rfl⟩
+      setScripts := fun _ _ => ⟨[], rfl⟩ }
+  unfold ev at h
+  simp only [bind_run, emit_run] at h
+  have key : ∀ (m : M V), Spec (fun a b : St => ∃ l, b.events = l ++ a.events) (fun _ => True) m →
+      m { s with events := Event.req op.name e.id :: s.events } = some (r, s') →
+      ∃ rest, s'.events = rest ++ (Event.req op.name e.id :: s.events) := fun m hm hrun => (hm.run _ _ _ hrun).1
+  have hn := pres_nodeOp hrel.toStRel truePred (spec_ev hrel truePred env n) env n
+    (fun x c op o => pres_cachedOp hrel truePred (spec_ev hrel truePred env n) env x c op o) op e o
+  cases op <;> simp only [] at h
+  · cases hs : env.subst with
+    | none =>
+      simp only [hs] at h
+      exact key _ (pres_wrapEvaluate hrel.toStRel truePred _ hn) h
+    | some p =>
+      obtain ⟨sid, v⟩ := p
+      simp only [hs] at h
+      by_cases hc : (sid == e.id && sid != 0) = true
+      · simp only [hc, if_true] at h
+        exact key _ (pres_pure hrel.toStRel truePred _) h
+      · simp only [hc] at h
+        exact key _ (pres_wrapEvaluate hrel.toStRel truePred _ hn) h
+  all_goals exact key _ hn h
+
+/-- the request log only grows: nothing a pass-through handler has observed is ever lost -/
+theorem request_log_monotone (env : Env) (n : Nat) (op : Op) (e : Expr) (o : V) (s : St) (r : Except Err V) (s' : St)
+    (h : ev env n op e o s = some (r, s')) : ∃ l, s'.events = l ++ s.events := by
+  have hrel : CacheRel (fun a b : St => ∃ l, b.events = l ++ a.events) :=
+    { refl := fun _ => ⟨[], rfl⟩
+      trans := fun ⟨l1, h1⟩ ⟨l2, h2⟩ => ⟨l2 ++ l1, by rw [h2, h1, List.append_assoc]⟩
+      emit := fun _ ev => ⟨[ev], rfl⟩
+      setCache := fun s c es => ⟨[], by unfold St.setCacheEntries; split <;> rfl⟩
+      setScripts := fun _ _ => ⟨[], rfl⟩ }
+  exact ((spec_ev hrel truePred env n op e o).run s r s' h).1
+
+/-- **substitute_honoured.** A handler that answers `EvaluateRequest` for node `sid` with `v` makes EVERY
+    evaluation of that node — at whatever depth it is reached, under whatever options — yield `v` without
+    running anything of the node. -/
+theorem substitute_honoured (env : Env) (sid : Nat) (v : V) (hs : env.subst = some (sid, v)) (n : Nat) (e : Expr) (o : V)
+    (s : St) (he : e.id = sid) (hne : sid ≠ 0) :
+    ev env (n + 1) .evaluate e o s = some (.ok v, { s with events := Event.req "evaluate" e.id :: s.events }) := by
+  unfold ev
+  simp [bind_run, hs, he, hne, Op.name]
+
+/-- other nodes are unaffected by the substitution handler -/
+theorem substitute_only_that_node (env : Env) (sid : Nat) (v : V) (hs : env.subst = some (sid, v)) (n : Nat) (e : Expr) (o : V)
+    (he : e.id ≠ sid) :
+    ev env (n + 1) .evaluate e o = (do emit (.req "evaluate" e.id); wrapEvaluate e.id (nodeOp env (ev env n) n .evaluate e o)) := by
+  unfold ev
+  have : (sid == e.id) = false := by simpa using Ne.symm he
+  simp [hs, this, Op.name]
+
+/-- cache lookups and stores, and log emissions, are requests too -/
+theorem cache_requests_issued (env : Env) (run : Run) (x : Expr) (c : Nat) (o : V) (s : St) :
+    existsReq env run x c o s =
+      (do if ← cacheDisabled env run o then pure false else backendExists env run x c o : M Bool)
+        { s with events := Event.req "cache_exists" x.id :: s.events } := by
+  simp [existsReq, bind_run]
+
+/-! non-vacuity -/
+def c18Env : Env :=
+  { β := fun f a k => .ok (.app f a k), binds := fun _ _ => .error "x", ov := fun _ => default, ds := fun _ => default,
+    cacheKind := fun _ => .memory, subst := some (7, .str "SUB") }
+
+example : (match ev c18Env 20 .evaluate
+      (.funApp 9 (.value 8 (.fn "f" [] [])) [.cached 7 (.option 1 "A" Option.none Option.none) 0] []) (.dict []) {} with
+    | some (.ok v, _) => decide (v = .app "f" [.str "SUB"] [])
+    | _ => false) = true := by decide +kernel
+
 end Labrea
